@@ -1,7 +1,7 @@
 from common import *
 
 PROPERTY = "C16"
-QUICK_SAMPLE = 0
+QUICK_SAMPLE = 6
 STUBS = [("std::fmt::format", "crate::c16::fmt_stub"), ("std::backtrace::Backtrace::capture", "crate::c16::backtrace_stub"), ("poulpy_cpu_ref::hal_defaults::scratch::take_slice_aligned", "crate::vz::take_slice_aligned_stub")]
 D = "poulpy-ckks/src/leveled/default"
 MAXU = 18446744073709551615
@@ -25,7 +25,7 @@ def instances(tier, seed):
                                         params={"a(limbs,log_delta,log_budget)": list(a), "b": list(b), "dst_limbs": ldst, "base2k": 17},
                                         symbolic=["all limbs of a and b: normalised digits", "prior dst content", "scratch contents (exact size)"], stubs=STUBS,
                                         functions=[f"{D}/{'add' if op == 0 else 'sub'}.rs::ckks_{oname}_default", "poulpy-ckks/src/layouts/ciphertext.rs::CKKSOffset::offset_binary"],
-                                        timeout=3000, mem_gb=28, core=((a, b, ldst) == ((3, 20, 31), (3, 25, 26), 1) and op == 1) or ((a, b, ldst) == ((3, 20, 14), (3, 20, 14), 2) and op == 0)))
+                                        timeout=3000, mem_gb=28, core=((a, b, ldst) == ((3, 20, 31), (3, 25, 26), 1) and op == 1) or ((a, b, ldst) == ((3, 20, 14), (3, 20, 14), 2) and op == 0) or ((a, b, ldst) == ((3, 20, 31), (3, 25, 26), 2) and op == 0)))
     for op, oname in enumerate(["mul_pow2_into", "div_pow2_into", "neg_into", "div_pow2_assign"]):
         for src in ((3, 20, 31), (2, 20, 14)):
             for ldst in (3, 2, 1):
@@ -39,13 +39,12 @@ def instances(tier, seed):
                                         symbolic=["all limbs of src: normalised digits", "prior dst content", "scratch contents"], stubs=STUBS,
                                         functions=[f"{D}/{'neg' if op == 2 else 'pow2'}.rs::ckks_{oname}_default", "poulpy-ckks/src/layouts/ciphertext.rs::CKKSOffset::offset_unary"],
                                         timeout=2400, mem_gb=28, core=core))
-    # calibrated allow-list: instances that finished (< 250 s, < 28 GB) on the unchanged tree; the two-limb/
-    # three-limb add/sub shapes with unequal budgets and mul_pow2 with bits = 2^64-1 ran out of memory or
-    # needed > 15 min and are NOT part of the claim
+    # allow-list: every add/sub shape (they fit since the take_slice_aligned stand-in keeps scratch offsets constant);
+    # the unary family keeps the shapes calibrated before that change (mul_pow2 with bits = 2^64-1 ran out of memory then)
     allow = ("c16_meta_helpers", "c16_div_pow2_assign_", "c16_div_pow2_into_s3_20_31_d2_", "c16_div_pow2_into_s3_20_31_d3_bits0", "c16_div_pow2_into_s3_20_31_d3_bits32",
              "c16_div_pow2_into_s3_20_31_d3_bitsmax0", "c16_div_pow2_into_s3_20_31_d1_bits5", "c16_div_pow2_into_s2_20_14_d2_bitsmax0", "c16_mul_pow2_into_s3_20_31_d2_bits0", "c16_mul_pow2_into_s3_20_31_d2_bits1",
              "c16_mul_pow2_into_s3_20_31_d2_bits5", "c16_mul_pow2_into_s3_20_31_d2_bits32", "c16_mul_pow2_into_s3_20_31_d3_bits32", "c16_mul_pow2_into_s3_20_31_d3_bitsmax0", "c16_neg_into_s3_20_31_",
-             "c16_sub_into_a3_20_31_b3_25_26_d1", "c16_sub_into_a3_20_31_b3_20_31_d1", "c16_add_into_a3_20_14_b3_20_14_d2")
+             "c16_add_into_", "c16_sub_into_", "c16_sub_into_a3_20_31_b3_20_31_d1", "c16_add_into_a3_20_14_b3_20_14_d2")
     out = [i for i in out if i.name.startswith(allow)]
     return out
 
@@ -56,4 +55,4 @@ META = {
     "assumptions": ["operand metadata consistent with its capacity (log_delta+log_budget <= max_k), as set_meta_checked enforces", "std::fmt::format and std::backtrace::Backtrace::capture stubbed (anyhow error construction)"],
     "stubs": ["std::fmt::format", "std::backtrace::Backtrace::capture", "take_slice_aligned (private, hal_defaults/scratch.rs) replaced by a copy deriving the 64-byte padding from the window offset inside the aligned harness arena instead of the pointer integer (same function on these arenas; the real one is decided by C12 scratch.take_slice*)"],
 }
-THOROUGH_SAMPLE = 6
+THOROUGH_SAMPLE = 60
